@@ -82,7 +82,53 @@ def gen_family(rng, prefix, kind, alphabet, count, nthreads, nops, mode, prefill
             else:
                 ths.append(prog(rng, alphabet, k, fresh))
         m = mode(rng) if callable(mode) else mode
-        out.append(conc.Scn("%s%d" % (prefix, i), kind, pre, ths, m, opts))
+        o = opts
+        if kind == "jdk" and rng.random() < 0.15:
+            # NewQueue with a Type value that names no implementation: documented to give the lock-free queue
+            o = dict(opts or {}, qtype=rng.choice([2, 3, 128, 255]))
+        out.append(conc.Scn("%s%d" % (prefix, i), kind, pre, ths, m, o))
+    return out
+
+def gen_stale_iter(tier, rng, prefix="si"):
+    """an iterator left behind: created (and advanced k times) on n elements, then the queue is polled past it, refilled and
+    polled again before the iterator goes on - its node, or the node after it, has meanwhile been consumed, passed by the
+    two-hop head update or self-linked.  Every small combination, single goroutine."""
+    out = []
+    for n in range(1, 6):
+        for k in range(0, min(n, 2) + 1):
+            for m in range(0, n + 1):
+                for j in range(0, 3):
+                    for l in range(0, min(j + n - m, 2) + 1):
+                        if m == 0 and j == 0:
+                            continue
+                        ops = ["o%d" % v for v in range(1, n + 1)] + ["i"] + ["n"] * k + ["p"] * m
+                        ops += ["o%d" % (n + 1 + v) for v in range(j)] + ["p"] * l
+                        ops += ["h", "n", "h", "n", "r", "n"] + ["n"] * (n + j) + ["z", "e", "k"]
+                        out.append(conc.Scn("%s%d_%d_%d_%d_%d" % (prefix, n, k, m, j, l), "jdk", [], [ops], "dfs 0 1", {"maxsteps": 20000}))
+    return out
+
+def gen_wrap_runs(tier, rng, kind, prefix="wr"):
+    """contents that have travelled: fill to a power of two, take some from the front, refill past that size (an array-backed
+    or chunked representation grows here with its first element in the middle), then everything must come out in order"""
+    out = []
+    caps = [4, 8, 16, 32, 64, 128] + ([256] if tier != "quick" else [])
+    for c in caps:
+        for h in sorted(set([1, c // 2, c - 1, rng.randint(1, c - 1)])):
+            ops = ["o%d" % v for v in range(1, c + 1)] + ["p"] * h
+            ops += ["o%d" % v for v in range(c + 1, c + h + 3)] + ["z", "k"]
+            ops += ["p"] * (c + 3) + ["e", "z"]
+            out.append(conc.Scn("%s%d_%d" % (prefix, c, h), kind, [], [ops], "dfs 0 1", {"maxsteps": 200000}))
+    return out
+
+def gen_wrap_conc(tier, rng, kind, prefix="wc"):
+    """the same shapes as set-up, then concurrent offers and polls across the growth point"""
+    out = []
+    for i, c in enumerate([4, 8, 16, 32, 64, 128]):
+        h = rng.randint(1, c - 1)
+        pre = list(range(1, c + 1)) + [-1] * h + list(range(c + 1, c + h))      # live = c - 1, one short of the old size
+        v = c + h
+        ths = [["o%d" % v, "o%d" % (v + 1), "p"], ["p", "o%d" % (v + 2), "p"]]
+        out.append(conc.Scn("%s%d" % (prefix, i), kind, pre, ths, "dfs 2 %d" % scale(tier, 300, 4000), {"maxsteps": 200000}))
     return out
 
 FIFO = ["o", "o", "p", "p", "k", "e"]
@@ -101,6 +147,8 @@ def gen_c01(tier, rng):
     s += gen_lag_sweep(tier, rng, "s", mode=lambda r: "rand %d %d" % (scale(tier, 12, 60), r.randint(1, 1 << 30)))
     s += gen_long_runs(tier, rng, "jdk")
     s += gen_poll_storm(tier, rng)
+    s += gen_wrap_conc(tier, rng, "mutex", "wm")
+    s += gen_wrap_conc(tier, rng, "jdk", "wj")
     return s
 
 def gen_poll_storm(tier, rng, prefix="ps"):
@@ -127,6 +175,7 @@ def gen_c07(tier, rng):
     s += gen_family(rng, "g", "jdk", ["o", "o", "p", "p", "k"], scale(tier, 24, 200), [2, 3], [1, 2, 3], lambda r: "freeze %d %d" % (scale(tier, 3, 12), r.randint(1, 1 << 30)), script=lag_script)
     s += gen_family(rng, "l", "jdk", full, scale(tier, 16, 150), [2, 3], [2, 3], lambda r: "solo %d %d" % (scale(tier, 300, 3000), r.randint(1, 1 << 30)), script=lag_script)
     s += gen_lag_sweep(tier, rng)
+    s += gen_stale_iter(tier, rng)
     return s
 
 def gen_two_iters(tier, rng, count):
@@ -172,6 +221,7 @@ def gen_c13(tier, rng):
              lambda v: [["i", "n", "n", "r"], ["i", "n", "r", "n"]],
              lambda v: [["i", "h", "n", "r", "n"], ["p"], ["o%d" % v]]]
     s += gen_lag_sweep(tier, rng, "s", mode=lambda r: "rand %d %d" % (scale(tier, 12, 60), r.randint(1, 1 << 30)), pats=ipats)
+    s += gen_stale_iter(tier, rng)
     return s
 
 def gen_exhaustive_seq(tier, kind, prefix):
@@ -217,6 +267,9 @@ def gen_c15(tier, rng):
     s = []
     s += gen_long_runs(tier, rng, "jdk")
     s += gen_long_runs(tier, rng, "mutex", "lm")
+    s += gen_stale_iter(tier, rng)
+    s += gen_wrap_runs(tier, rng, "jdk", "wj")
+    s += gen_wrap_runs(tier, rng, "mutex", "wm")
     s += gen_exhaustive_seq(tier, "jdk", "xj")
     s += gen_exhaustive_seq(tier, "mutex", "xm")
     seq = ["o", "o", "o0", "p", "p", "k", "e", "z", "i", "n", "n", "h", "r"]
@@ -233,6 +286,8 @@ def gen_c19_queue(tier, rng):
     s += gen_family(rng, "a", "mutex", ALL, scale(tier, 16, 120), 2, [2, 3], "dfs 2 %d" % scale(tier, 3000, 40000))
     s += gen_family(rng, "b", "mutex", ALL, scale(tier, 8, 60), 3, [1, 2], "dfs 2 %d" % scale(tier, 3000, 40000))
     s += gen_family(rng, "c", "mutex", ALL, scale(tier, 10, 100), [3, 4], [2, 3, 4], lambda r: "rand %d %d" % (scale(tier, 300, 3000), r.randint(1, 1 << 30)))
+    s += gen_wrap_runs(tier, rng, "mutex", "wm")
+    s += gen_wrap_conc(tier, rng, "mutex")
     return s
 
 def fine_c13(tier, rng):
